@@ -153,9 +153,10 @@ def runSpyModel (c : Cfg B) (q : Option Nat) (ops : List String) : List String :
     | [] =>
       let d := mlwDrop s.st (spyOracle q s.occ)
       let oks := okPayloads d.1
+      -- first the wrappers are dropped (nothing may be written), then the sink itself
       match q with
-      | none => (("ok0/" ++ fmtSeen (s.held ++ oks)) :: acc).reverse
-      | some _ => (("ok0/" ++ fmtSeen (s.held ++ oks)) :: s!"ok0/#{oks.length}" :: acc).reverse
+      | none => (("ok0/" ++ fmtSeen (s.held ++ oks)) :: "ok0/" :: acc).reverse
+      | some _ => (("ok0/" ++ fmtSeen (s.held ++ oks)) :: s!"ok0/#{oks.length}" :: "ok0/#0" :: acc).reverse
     | t :: rest =>
       if t == "r" then
         go { s with occ := 0, held := [] } rest (("ok0/" ++ fmtSeen s.held) :: acc)
@@ -181,9 +182,14 @@ def runSpy (prop : String) (f : List String) (obsS : String) : Verdict :=
     let opsL := splitList opsS ","
     let model := joinWith ";" (runSpyModel c q opsL)
     -- predicates: only when every write is visible (unbounded receiver queue)
+    let nops := opsL.length
+    let wrapObs := (obsS.splitOn ";").getD nops ""
     let v : Option (String × String) :=
+      if wrapObs != "ok0/" && wrapObs != "ok0/#0" && wrapObs != "" then
+        some ("C19", "dropping a wrapper (client / queuing sink) around the buffered sink made it write to the socket")
+      else
       if q.isSome then none else
-      match parseObs obsS with
+      match parseObs (joinWith ";" (((obsS.splitOn ";").take nops) ++ ((obsS.splitOn ";").drop (nops + 1)))) with
       | none => none
       | some impl =>
         match ckLife c [] (parseOps opsS) impl with
